@@ -4,7 +4,9 @@ sys.path.insert(0, os.path.dirname(os.path.abspath(__file__)))
 import fw
 
 t0 = time.time()
-mods = sorted(os.path.basename(p)[:-3] for p in glob.glob(os.path.join(fw.VERIF, 'tools', 'c[0-9][0-9].py')))
+from claims import CLAIMS
+mods = sorted(os.path.basename(p)[:-3] for p in glob.glob(os.path.join(fw.VERIF, 'tools', 'c[0-9][0-9].py'))
+              if os.path.basename(p)[:-3].upper() in CLAIMS)
 os.makedirs(os.path.join(fw.COQ, 'Gen'), exist_ok=True)
 props = []
 for m in mods:
@@ -25,7 +27,10 @@ if '--clean' in sys.argv:
         except OSError:
             pass
 fw.ensure_makefile()
-ok, out = fw.coq_make(['all'], timeout=3000)
+targets = []
+for p in props:
+    targets += fw.coq_deps(p.PROPS)
+ok, out = fw.coq_make(sorted(set(targets)), timeout=3000)
 print('setup: coq build %s in %.0fs' % ('ok' if ok else 'FAILED', time.time() - t0))
 if not ok:
     print(out[-3000:])
